@@ -14,6 +14,7 @@ CONSTANTS U,        \* universe: finite set of integer points in strictly convex
           MinPts, MaxPts,
           Off,      \* integer translation <<ox,oy,oz>>
           EmitOn,
+          WithRound,   \* TRUE: records carry the exact squared distance of the surrounding lattice points to the polytope
           WithCurv,    \* TRUE: records carry curvature terms, Steiner formulas and exact ball data (C11, C13)
           WithPoints,  \* TRUE: records carry the membership classification of the lattice points around the solid
           InitAll   \* TRUE: every non-degenerate 4-subset is an initial state; FALSE: one fixed seed (simulation)
@@ -169,7 +170,35 @@ CurvRecord == LET Fs == Facets(W) IN
     [mterm |-> MeanCurvatureTerm(Fs), steiner_volume |-> SteinerVolume, steiner_area |-> SteinerArea,
      steiner_curvature |-> SteinerCurvature, tau |-> TauTerm, asphericity |-> AsphericityTerm, iq |-> IqTerm,
      balls |-> BallData(Fs, Tris)]
-FullRecord == IF WithPoints THEN [r |-> Record, p |-> PointRecord]
+(* ---- exact distance to the polytope (C05, spheropolyhedra with a general convex core) ------------------ *)
+\* squared distance from a lattice point p to conv(W) as a rational <<num, den>>; 0 inside.  Outside, the nearest point
+\* lies in the relative interior of a face, of an edge, or is a vertex; each candidate below is an upper bound of the
+\* distance and the one of the nearest feature is attained, so the minimum over the valid candidates is exact.
+RatLeq(a, b) == a[1] * b[2] <= b[1] * a[2]
+RatMin(S) == CHOOSE a \in S : \A b \in S : RatLeq(a, b)
+DistSq(p, Fs, Es) ==
+    IF \A F \in Fs : Dot3(PrimNormal(F, W), p) <= FacetOffset(F, W) THEN <<0, 1>> ELSE
+    LET vert == {<<Norm3sq(Sub3(p, v)), 1>> : v \in W}
+        edgeC(e) == LET a == CHOOSE x \in e : TRUE  b == CHOOSE x \in e : x # a
+                        u == Sub3(b, a)  w == Sub3(p, a)  tp == Dot3(w, u)  uu == Norm3sq(u) IN
+                    IF 0 <= tp /\ tp <= uu THEN {<<Norm3sq(w) * uu - tp * tp, uu>>} ELSE {}
+        faceC(F) == LET n == PrimNormal(F, W)  nn == Norm3sq(n)  hh == Dot3(n, p) - FacetOffset(F, W)
+                        a0 == CHOOSE x \in F : TRUE
+                        cyc == Cycle(F, W, a0)
+                        qn == Sub3(Scale3(nn, p), Scale3(hh, n))              \* |n|^2 times the projection of p onto the plane
+                        insideF == \A i \in 1..Len(cyc) :
+                                      Dot3(n, Cross3(Sub3(cyc[Nxt(i, Len(cyc))], cyc[i]), Sub3(qn, Scale3(nn, cyc[i])))) >= 0 IN
+                    IF hh > 0 /\ insideF THEN {<<hh * hh, nn>>} ELSE {}
+    IN RatMin(vert \cup UNION {edgeC(e) : e \in Es} \cup UNION {faceC(F) : F \in Fs})
+Lo2(k) == (CHOOSE p \in W : \A r \in W : p[k] <= r[k])[k] - 2
+Hi2(k) == (CHOOSE p \in W : \A r \in W : p[k] >= r[k])[k] + 2
+QPts2 == LET l1 == Lo2(1)  l2 == Lo2(2)  l3 == Lo2(3)
+             n1 == Hi2(1) - l1 + 1  n2 == Hi2(2) - l2 + 1  n3 == Hi2(3) - l3 + 1
+         IN [i \in 1..n1 * n2 * n3 |-> << l1 + ((i - 1) \div (n2 * n3)), l2 + (((i - 1) \div n3) % n2), l3 + ((i - 1) % n3) >>]
+RoundRecord == LET Fs == Facets(W)  Es == UNION {FacetEdges(F, W) : F \in Fs}  QQ == QPts2
+               IN [q |-> QQ, d2 |-> [i \in 1..Len(QQ) |-> DistSq(QQ[i], Fs, Es)]]
+
+FullRecord == IF WithRound THEN [r |-> Record, d |-> RoundRecord] ELSE IF WithPoints THEN [r |-> Record, p |-> PointRecord]
               ELSE IF WithCurv THEN [r |-> Record, c |-> CurvRecord] ELSE [r |-> Record]
 
 Emit == (EmitOn /\ Cardinality(V) >= MinPts) => PrintT(ToJson(FullRecord))
